@@ -153,6 +153,14 @@ def _gen_sched(rng):
         t += _gap(rng, mw[m])
         ops.append({"t": round(t, 6), "op": "save", "m": m, "body": V.gen_body(rng, big), "alias": rng.random() < 0.3,
                     "first": rng.random() < 0.5})
+        k = rng.random()
+        if k < 0.12:        # the owner saves again without a change
+            t += _gap(rng, mw[m])
+            ops.append({"t": round(t, 6), "op": "resave", "m": m, "same_obj": rng.random() < 0.5, "first": rng.random() < 0.5})
+        elif k < 0.30:      # ... or with a change of TYPE only (1 -> True -> 1.0)
+            for _ in range(rng.choice([1, 1, 2])):
+                t += _gap(rng, mw[m])
+                ops.append({"t": round(t, 6), "op": "typeswap", "m": m, "first": rng.random() < 0.5})
     fault = None
     if rng.random() < 0.35:
         j = rng.randrange(len(ops))
@@ -165,10 +173,14 @@ def _gen_sched(rng):
         for _ in range(rng.choice([0, 1, 2])):
             m = rng.randrange(n)
             t += _gap(rng, mw[m]) + rng.choice([0, 1.2])
-            ops.append({"t": round(t, 6), "op": "save", "m": m, "body": V.gen_body(rng, 0), "alias": False,
-                        "first": False})
+            if rng.random() < 0.5:      # the same content again (a retry / an unchanged state saved again)
+                ops.append({"t": round(t, 6), "op": "resave", "m": rng.choice([m, ops[j]["m"]]),
+                            "same_obj": rng.random() < 0.5, "first": False})
+            else:
+                ops.append({"t": round(t, 6), "op": "save", "m": m, "body": V.gen_body(rng, 0), "alias": False,
+                            "first": False})
     if fault is None or rng.random() < 0.3:
-        m_last = ops[-1]["m"] if ops[-1]["op"] == "save" else 0
+        m_last = ops[-1]["m"] if ops[-1]["op"] in ("save", "resave", "typeswap") else 0
         ts = t + rng.choice([_gap(rng, mw[m_last]), _gap(rng, mw[m_last]), mw[m_last] + 2.5])
         ops.append({"t": round(ts, 6), "op": "stop", "first": rng.random() < 0.5})
     delays = []
@@ -176,7 +188,7 @@ def _gen_sched(rng):
         delays.append([rng.randrange(n), rng.randrange(0, 10), rng.randrange(1, 3000 if deep and rng.random() < 0.5 else (
             150 if deep else 45)), rng.choice([0.0, 0.001, 0.05, 0.3, 1.5])])
     return {"mode": "sched", "n": n, "mw": mw, "deep": deep, "ops": ops, "delays": delays,
-            "tie": rng.randrange(1 << 30), "initial": rng.random() < 0.3}
+            "tie": rng.randrange(1 << 30), "initial": rng.random() < 0.3, "resave_after_failure": rng.random() < 0.8}
 
 
 def _gen_crash(rng, k):
@@ -194,6 +206,10 @@ def _gen_real(rng, tier):
         burst = rng.sample(range(n), rng.randint(1, n))
         ops.append({"gap": rng.choice([0.0, 0.001, mw * 0.5, mw, mw * 1.5, mw + 0.02]), "ms": burst,
                     "body": _real_body(rng, V), "alias": rng.random() < 0.5})
+        k = rng.random()
+        if k < 0.35:        # same content again / type-only change of what these managers saved last
+            ops.append({"gap": rng.choice([0.0, 0.001, mw * 0.5, mw * 1.5, mw + 0.3]), "ms": burst,
+                        "kind": rng.choice(["resave", "typeswap", "typeswap"])})
     return {"mode": "real", "n": n, "mw": mw, "ops": ops, "stop_gap": rng.choice([0.0, 0.001, mw * 0.5, mw, mw + 1.2]),
             "switch_us": rng.choice([5, 50, 500, 5000])}
 
@@ -324,7 +340,7 @@ def _run_sched(case):
     clauses = {"history": 0, "shutdown_durability": 0, "write_failure": 0}
     obs = {"sched_cases": 1, "handoffs": 0, "delays_hit": 0, "failed_writes": 0, "injected_failed_writes": 0,
            "writer_never_exited": 0, "excused_saves": 0, "scheduling_point_observations": 0, "max_concurrent_saves": 0,
-           "watchdog_inconclusive": 0, "writes": 0}
+           "watchdog_inconclusive": 0, "writes": 0, "resaves_of_unchanged_content": 0, "type_only_changes": 0}
     viol = []
     base = tempfile.mkdtemp(prefix="c15-s-")
     initial = None
@@ -348,6 +364,12 @@ def _run_sched(case):
             kind = o["op"]
             if kind == "save":
                 eng.save(int(o.get("m", 0)), V.build(o.get("body", {})), alias=bool(o.get("alias")))
+            elif kind == "resave":
+                eng.resave(int(o.get("m", 0)), same_obj=bool(o.get("same_obj")))
+                obs["resaves_of_unchanged_content"] += 1
+            elif kind == "typeswap":
+                if eng.typeswap(int(o.get("m", 0))) is not None:
+                    obs["type_only_changes"] += 1
             elif kind == "fault_on":
                 eng.fault_on(o.get("kind", "enospc"), o.get("m"), oneshot=bool(o.get("oneshot", True)))
             elif kind == "fault_off":
@@ -359,14 +381,25 @@ def _run_sched(case):
         eng.fault_off()
         if eng.failures and eng.stop_seq is None:
             eng.advance(0.0)
-            probes = {m: eng.save(m, {"probe": True}) for m in range(n)}
+            # (1) the owners save their state again, UNCHANGED (the content of the failed write included);
+            # (2) fresh versions.  Only the on-disk content is judged: it must be what was last handed over.
+            phases = []
+            if case.get("resave_after_failure", True) and eng.last_saved:
+                phases.append(("resave", {m: eng.resave(m, same_obj=bool((m + case.get("tie", 0)) % 2))
+                                          for m in sorted(eng.last_saved)}))
+                obs["resaves_of_unchanged_content"] += len(phases[-1][1])
+                eng.advance(horizon)
+                phases[-1] = phases[-1] + ({m: eng.on_disk(m) for m in phases[-1][1]},)
+            phases.append(("fresh", {m: eng.save(m, {"probe": True}) for m in range(n)}))
             eng.advance(horizon)
-            for m, pv in probes.items():
+            phases[-1] = phases[-1] + ({m: eng.on_disk(m) for m in phases[-1][1]},)
+            for kind, probes, disk in phases:
+              for m, pv in probes.items():
                 clauses["write_failure"] += 1
-                v, sig, detail, _ = eng.on_disk(m)
+                v, sig, detail, _ = disk[m]
                 if v != pv:
-                    viol.append({"clause": "write_failure", "sig": _diagnose(eng, m, True), "detail": {
-                        "manager": m, "probe_version": pv, "on_disk_version": v, "virtual_wait_s": horizon,
+                    viol.append({"clause": "write_failure", "sig": _diagnose(eng, m, True, pv, v, kind), "detail": {
+                        "manager": m, "probe": kind, "probe_version": pv, "on_disk_version": v, "virtual_wait_s": horizon,
                         "failed_writes": [f[1:] for f in eng.failures[:3]], "FileManager.is_busy": eng.is_busy(),
                         "saves_in_flight": eng.inflight, "threads": eng.sched.describe(), "events": eng.events[-12:]}})
         # ---- clean shutdown: stopper set, process kept alive until the writers exit
@@ -386,7 +419,7 @@ def _run_sched(case):
             clauses["shutdown_durability"] += 1
             v, sig, detail, raw = eng.on_disk(m)
             if v != lv:
-                viol.append({"clause": "shutdown_durability", "sig": _diagnose(eng, m, False), "detail": {
+                viol.append({"clause": "shutdown_durability", "sig": _diagnose(eng, m, False, lv, v), "detail": {
                     "manager": m, "min_wait_secs": mw[m % len(mw)], "last_saved_version": lv, "on_disk_version": v,
                     "on_disk_problem": sig, "writers_exited": exited, "phase_at_stop": phase_at_stop,
                     "failed_writes": [f[1:] for f in eng.failures[:3]], "FileManager.is_busy": eng.is_busy(),
@@ -415,7 +448,8 @@ def _run_sched(case):
         if eng is not None:
             eng.close()
         shutil.rmtree(base, ignore_errors=True)
-    kinds = "".join({"save": "s", "fault_on": "F", "fault_off": "f", "stop": "X"}.get(o["op"], "?") for o in ops)
+    kinds = "".join({"save": "s", "resave": "r", "typeswap": "t", "fault_on": "F", "fault_off": "f",
+                     "stop": "X"}.get(o["op"], "?") for o in ops)
     fk = next((o.get("kind") for o in ops if o["op"] == "fault_on"), "-")
     gaps = "".join(_bucket(b.get("t", 0) - a.get("t", 0)) + "," for a, b in zip(ops, ops[1:]))
     shape = "S|n%d|%s|%s|%s|fault=%s|deep=%d|d%d|stop@%s" % (
@@ -426,8 +460,10 @@ def _run_sched(case):
             "nontrivial": clauses["history"] > 0 and clauses["shutdown_durability"] > 0}
 
 
-def _diagnose(eng, m, probe):
+def _diagnose(eng, m, probe, want=None, got=None, kind="fresh"):
     """Mechanism signature of a save that did not reach the disk (the verdict itself is black-box)."""
+    if want and got and want[0] == got[0] and got[1] < want[1]:
+        return "C15:type_only_change_not_written"       # disk holds 1 where True / 1.0 was saved last
     recs = eng.sched.threads
     rec = recs[m] if m < len(recs) else None
     spont = [f for f in eng.failures if not f[3]]
@@ -442,6 +478,8 @@ def _diagnose(eng, m, probe):
         return "C15:save_lost_to_spontaneous_write_error"
     if eng.failures and eng.is_busy() and eng.inflight == 0:
         return "C15:is_busy_stuck_after_failed_write"
+    if eng.failures and sum(1 for q, mm, r in eng.save_order if mm == m and r == want) >= 2:
+        return "C15:resave_of_failed_content_dropped"   # same content handed again after its write had failed
     if probe:
         return "C15:later_save_never_written"
     if rec is not None and rec.state == "done":
@@ -624,6 +662,11 @@ def _run_crash(case):
                 viol.append({"clause": "error_atomicity", "sig": "C15:torn_target_after_io_error",
                              "detail": dict(where, target_version=v, problem=prob)})
             clauses["error_then_later_save"] += 1
+            v2b, prob2b = which(os.path.join(base, "snap", "after_v2_again.yaml"))
+            if v2b != 2 and not rep.get("is_busy") and not rep.get("died") and len(rep.get("save_errors", [])) < 2:
+                # v2 was handed over again after its write had failed (or succeeded): v2 must be on disk now
+                viol.append({"clause": "error_then_later_save", "sig": "C15:resave_of_failed_content_dropped", "detail": dict(
+                    where, after_resave_version=v2b, problem=prob2b, virtual_wait_s=120, child_report=rep)})
             v3, prob3 = which(os.path.join(base, "snap", "after_v3.yaml"))
             vf, probf = which(tgt)
             if v3 != 3 or vf != 3:
@@ -1011,7 +1054,7 @@ def _run_real_inproc(case):
     ops = [o for o in case.get("ops", []) if isinstance(o, dict)]
     clauses = {"history": 0, "shutdown_durability": 0}
     obs = {"real_cases": 1, "real_inconclusive": 0, "real_watcher_reads": 0, "real_failed_writes": 0,
-           "real_writer_died": 0, "real_max_concurrent_saves": 0, "real_writes": 0}
+           "real_writer_died": 0, "real_max_concurrent_saves": 0, "real_writes": 0, "real_type_only_changes": 0}
     viol = []
     root = tempfile.mkdtemp(prefix="c15-r-")
     stopper = threading.Event()
@@ -1081,26 +1124,44 @@ def _run_real_inproc(case):
         time.sleep(mw * 1.5 + 0.02)
         next_v = 1
         last_saved = {}
-        aliased = set()
+        aliased = set()          # managers whose dict was ever mutated in place (snapshot tolerance)
+        last_alias = set()       # ... and whose LAST save was such a mutation
         for o in ops:
             time.sleep(max(0.0, min(3.0, float(o.get("gap", 0)))))
             body = V.build(o.get("body", {}))
             for m in o.get("ms", [0]):
                 m = int(m) % n
+                if o.get("kind") in ("resave", "typeswap"):
+                    rank = last_saved.get(m)
+                    if rank is None or m in last_alias:
+                        continue
+                    data = copy.deepcopy(hist[m].versions[rank])
+                    if o["kind"] == "typeswap":
+                        if rank[1] >= 2:
+                            continue
+                        data = V.type_variant(data)
+                        rank = (rank[0], rank[1] + 1)
+                        hist[m].versions[rank] = copy.deepcopy(data)
+                        last_saved[m] = rank
+                        obs["real_type_only_changes"] += 1
+                    managers[m].save_all(data)
+                    continue
                 v = next_v
                 next_v += 1
                 if o.get("alias") and m in last_saved and isinstance(managers[m].data, dict):
                     data = managers[m].data         # the caller mutates the dict it handed over earlier, then re-saves
                     aliased.add(m)
-                    final = dict(body, _v=v, _m=m)
-                    hist[m].versions[v] = copy.deepcopy(final)
+                    last_alias.add(m)
+                    final = dict(body, _v=v, _m=m, _t=1)
+                    hist[m].versions[(v, 0)] = copy.deepcopy(final)
                     for k in [k for k in list(data) if k not in final]:
                         del data[k]
                     data.update(final)
                 else:
-                    data = dict(body, _v=v, _m=m)
-                    hist[m].versions[v] = copy.deepcopy(data)
-                last_saved[m] = v
+                    data = dict(body, _v=v, _m=m, _t=1)
+                    hist[m].versions[(v, 0)] = copy.deepcopy(data)
+                    last_alias.discard(m)
+                last_saved[m] = (v, 0)
                 managers[m].save_all(data)
         time.sleep(max(0.0, min(3.0, float(case.get("stop_gap", 0)))))
         stopper.set()
@@ -1129,7 +1190,7 @@ def _run_real_inproc(case):
         # ---- history (offline over what the watcher saw)
         for i in range(n):
             h = hist[i]
-            lastv = -1
+            lastv = (-1, 0)
             for raw in seen[i]:
                 if raw is None:
                     continue
@@ -1158,7 +1219,9 @@ def _run_real_inproc(case):
                 v, sig, detail = hist[m].classify(raw)
                 if v != lv or sig:
                     name = "dm%d" % m
-                    if name in st["died"]:
+                    if v and v[0] == lv[0] and v[1] < lv[1]:
+                        s2 = "C15:type_only_change_not_written"
+                    elif name in st["died"]:
                         s2 = "C15:writer_thread_died"
                     elif st["fail"]:
                         s2 = "C15:is_busy_race_concurrent_dumps" if st["max"] >= 2 else \
